@@ -39,6 +39,8 @@ type Contract struct {
 	Trusted      bool // contract assumed, body not verified (externals)
 	Thread       bool // body runs as its own goroutine
 	Flags        map[string]string
+	Like         string
+	Subst        [][2]string
 	Guards       []GuardRule          // type blocks: field/call-out guard discipline
 	LockInvs     map[string][]*Clause // type blocks: mutex field -> invariant clauses over "self"
 	Interference bool                 // type blocks: guarded fields are havocked at Lock (other threads may have changed them)
@@ -57,13 +59,22 @@ type GuardRule struct {
 var labelRe = regexp.MustCompile(`^\[([A-Za-z0-9_.,\-]+)\]\s*`)
 
 // parseContracts reads //@ lines from a file.
-func parseContracts(path string) ([]*Contract, error) {
+// SpecDef is a global specification macro.
+type SpecDef struct {
+	Name   string
+	Params []string
+	Body   *Clause
+	Line   int
+}
+
+func parseContracts(path string) ([]*Contract, []*SpecDef, error) {
 	f, err := os.Open(path)
 	if err != nil {
-		return nil, err
+		return nil, nil, err
 	}
 	defer f.Close()
 	var out []*Contract
+	var defs []*SpecDef
 	var cur *Contract
 	var last *Clause
 	sc := bufio.NewScanner(f)
@@ -86,6 +97,26 @@ func parseContracts(path string) ([]*Contract, error) {
 			body = strings.TrimSpace(body[:i])
 		}
 		word, rest := splitWord(body)
+		if word == "def" {
+			// def name(p1, p2) := expr   (global specification macro)
+			i := strings.Index(rest, ":=")
+			j := strings.Index(rest, "(")
+			k := strings.Index(rest, ")")
+			if i < 0 || j < 0 || k < j || k > i {
+				return nil, nil, fmt.Errorf("%s:%d: malformed def", path, ln)
+			}
+			d := &SpecDef{Name: strings.TrimSpace(rest[:j]), Line: ln}
+			for _, a := range strings.Split(rest[j+1:k], ",") {
+				if a = strings.TrimSpace(a); a != "" {
+					d.Params = append(d.Params, a)
+				}
+			}
+			d.Body = &Clause{Text: strings.TrimSpace(rest[i+2:]), Line: ln, Flags: map[string]bool{}}
+			defs = append(defs, d)
+			last = d.Body
+			cur = nil
+			continue
+		}
 		switch word {
 		case "func", "iface", "callout", "type":
 			cur = &Contract{Name: rest, Loops: map[int]*LoopSpec{}, Line: ln, File: path, Flags: map[string]string{}}
@@ -100,7 +131,11 @@ func parseContracts(path string) ([]*Contract, error) {
 			continue
 		}
 		if cur == nil {
-			return nil, fmt.Errorf("%s:%d: clause outside of a func block", path, ln)
+			if last != nil {
+				last.Text += " " + body
+				continue
+			}
+			return nil, nil, fmt.Errorf("%s:%d: clause outside of a func block", path, ln)
 		}
 		mk := func(text string) *Clause {
 			c := &Clause{Text: text, Line: ln, Flags: map[string]bool{}}
@@ -114,6 +149,19 @@ func parseContracts(path string) ([]*Contract, error) {
 		case "props":
 			cur.Props = strings.Fields(rest)
 			last = nil
+		case "like":
+			// like <other contract> [subst A=B ...]: copy the clauses of another block, renaming identifiers
+			i := strings.Index(rest, " subst ")
+			cur.Like = strings.TrimSpace(rest)
+			if i >= 0 {
+				cur.Like = strings.TrimSpace(rest[:i])
+				for _, kv := range strings.Fields(rest[i+7:]) {
+					if j := strings.Index(kv, "="); j > 0 {
+						cur.Subst = append(cur.Subst, [2]string{kv[:j], kv[j+1:]})
+					}
+				}
+			}
+			last = nil
 		case "inline":
 			cur.Inline = true
 			last = nil
@@ -126,7 +174,7 @@ func parseContracts(path string) ([]*Contract, error) {
 		case "guardedby", "calloutunder":
 			f := strings.Fields(rest)
 			if len(f) < 2 {
-				return nil, fmt.Errorf("%s:%d: %s needs <field> <mutex>", path, ln, word)
+				return nil, nil, fmt.Errorf("%s:%d: %s needs <field> <mutex>", path, ln, word)
 			}
 			cur.Guards = append(cur.Guards, GuardRule{Field: f[0], Lock: f[1], CallOut: word == "calloutunder", Props: f[2:]})
 			last = nil
@@ -158,7 +206,7 @@ func parseContracts(path string) ([]*Contract, error) {
 		case "let":
 			parts := strings.SplitN(rest, ":=", 2)
 			if len(parts) != 2 {
-				return nil, fmt.Errorf("%s:%d: let needs :=", path, ln)
+				return nil, nil, fmt.Errorf("%s:%d: let needs :=", path, ln)
 			}
 			last = &Clause{Label: strings.TrimSpace(parts[0]), Text: strings.TrimSpace(parts[1]), Line: ln, Flags: map[string]bool{}}
 			cur.Lets = append(cur.Lets, last)
@@ -169,7 +217,7 @@ func parseContracts(path string) ([]*Contract, error) {
 			nstr, r2 := splitWord(rest)
 			n, err := strconv.Atoi(nstr)
 			if err != nil {
-				return nil, fmt.Errorf("%s:%d: loop ordinal: %v", path, ln, err)
+				return nil, nil, fmt.Errorf("%s:%d: loop ordinal: %v", path, ln, err)
 			}
 			ls := cur.Loops[n]
 			if ls == nil {
@@ -194,15 +242,72 @@ func parseContracts(path string) ([]*Contract, error) {
 			case "":
 				last = nil
 			default:
-				return nil, fmt.Errorf("%s:%d: unknown loop clause %q", path, ln, w2)
+				return nil, nil, fmt.Errorf("%s:%d: unknown loop clause %q", path, ln, w2)
 			}
 		default:
 			// continuation of the previous clause
 			if last == nil {
-				return nil, fmt.Errorf("%s:%d: unknown clause %q", path, ln, word)
+				return nil, nil, fmt.Errorf("%s:%d: unknown clause %q", path, ln, word)
 			}
 			last.Text += " " + body
 		}
+	}
+	byName := map[string]*Contract{}
+	for _, c := range out {
+		byName[c.Name] = c
+	}
+	for _, c := range out {
+		if c.Like == "" {
+			continue
+		}
+		src := byName[c.Like]
+		if src == nil {
+			return nil, nil, fmt.Errorf("%s:%d: like: unknown block %q", path, c.Line, c.Like)
+		}
+		sub := func(s string) string {
+			for _, kv := range c.Subst {
+				s = replaceIdent(s, kv[0], kv[1])
+			}
+			return s
+		}
+		cp := func(cs []*Clause) []*Clause {
+			var o []*Clause
+			for _, cl := range cs {
+				o = append(o, &Clause{Label: cl.Label, Text: sub(cl.Text), Line: cl.Line, Flags: map[string]bool{}})
+			}
+			return o
+		}
+		c.Requires = append(cp(src.Requires), c.Requires...)
+		c.Ensures = append(cp(src.Ensures), c.Ensures...)
+		c.Lets = append(cp(src.Lets), c.Lets...)
+		for n, l := range src.Loops {
+			nl := &LoopSpec{Ordinal: n, Invariants: cp(l.Invariants)}
+			for _, m := range l.Modifies {
+				nl.Modifies = append(nl.Modifies, sub(m))
+			}
+			if ex := c.Loops[n]; ex != nil {
+				nl.Invariants = append(nl.Invariants, ex.Invariants...)
+			}
+			c.Loops[n] = nl
+		}
+		for _, m := range src.Modifies {
+			c.Modifies = append(c.Modifies, sub(m))
+		}
+		if len(c.Props) == 0 {
+			c.Props = src.Props
+		}
+		for k, v := range src.Flags {
+			if _, ok := c.Flags[k]; !ok {
+				c.Flags[k] = sub(v)
+			}
+		}
+	}
+	for _, d := range defs {
+		ex, err := parseSpecExpr(d.Body.Text)
+		if err != nil {
+			return nil, nil, fmt.Errorf("%s:%d: %v in def %s", path, d.Line, err, d.Name)
+		}
+		d.Body.Expr = ex
 	}
 	// parse expressions
 	for _, c := range out {
@@ -216,7 +321,7 @@ func parseContracts(path string) ([]*Contract, error) {
 		for _, cl := range all {
 			ex, err := parseSpecExpr(cl.Text)
 			if err != nil {
-				return nil, fmt.Errorf("%s:%d: %v in %q", path, cl.Line, err, cl.Text)
+				return nil, nil, fmt.Errorf("%s:%d: %v in %q", path, cl.Line, err, cl.Text)
 			}
 			cl.Expr = ex
 			if cl.Label != "" {
@@ -233,7 +338,7 @@ func parseContracts(path string) ([]*Contract, error) {
 			}
 		}
 	}
-	return out, sc.Err()
+	return out, defs, sc.Err()
 }
 
 func isPropID(s string) bool {
@@ -551,7 +656,7 @@ func (p *specParser) primary() (*SExpr, error) {
 			if v.kind != "id" {
 				return nil, fmt.Errorf("expected variable after %s", t.text)
 			}
-			// type: identifier possibly prefixed by * and qualified
+			// type: identifier possibly prefixed by *, qualified, or instantiated (T[V])
 			ty := ""
 			for !p.isOp("::") {
 				tt := p.next()
@@ -599,4 +704,23 @@ func (p *specParser) primary() (*SExpr, error) {
 		}
 	}
 	return nil, fmt.Errorf("unexpected token %q", t.text)
+}
+
+// replaceIdent replaces whole-identifier occurrences of from by to.
+func replaceIdent(s, from, to string) string {
+	var b strings.Builder
+	i := 0
+	isId := func(c byte) bool {
+		return c == '_' || (c >= 'a' && c <= 'z') || (c >= 'A' && c <= 'Z') || (c >= '0' && c <= '9')
+	}
+	for i < len(s) {
+		if strings.HasPrefix(s[i:], from) && (i == 0 || !isId(s[i-1])) && (i+len(from) >= len(s) || !isId(s[i+len(from)])) {
+			b.WriteString(to)
+			i += len(from)
+			continue
+		}
+		b.WriteByte(s[i])
+		i++
+	}
+	return b.String()
 }
